@@ -46,7 +46,18 @@ CHECK_DEADLOCK FALSE
 
 
 def setup():
+    """the name server module with cooperative locks: as nameserver.threading for the locks it makes at run time, and - by
+    executing the module's own code once more while the lock factories are replaced - for any lock it makes when it is imported
+    (a lock in a decorator's closure or in a class body would otherwise block a thread behind the scheduler's back)"""
+    import importlib
+    import threading
     from Pyro5 import nameserver
+    real = (threading.Lock, threading.RLock, threading.Event)
+    threading.Lock, threading.RLock, threading.Event = S.CoopLock, S.CoopRLock, S.CoopEvent
+    try:
+        nameserver = importlib.reload(nameserver)
+    finally:
+        threading.Lock, threading.RLock, threading.Event = real
     nameserver.threading = S.shim_threading()
     return nameserver
 
